@@ -27,6 +27,7 @@ TABLES = {
     "T2": ("a bigint, c bigint", [(1, 10), (3, 30), (7, 70)]),
     "T3": ("c bigint, d bigint, e bigint", [(5, 6, 7), (1, 1, 1)]),
     "T4": ("b bigint, a bigint", [(2, 1), (9, 3)]),
+    "T5": ("b bigint, z bigint, a bigint", [(2, 0, 1), (4, 0, 3)]),
 }
 
 UUID = re.compile(r"'([0-9a-f]{32})'")
